@@ -24,12 +24,13 @@ Judge(e) ==
       want == Want(e)
       binary == e.kind # "ascii"
   IN /\ say(Len(want) = n /\ e.img = want, "harness-float32-table-disagrees-with-the-specification")
-     /\ (binary => say(e.dy = 0 \/ \A i \in 1..n : (Degenerate(e.tris[i]) <=> (e.nm[i][1] = 2)), "harness-degeneracy-flag-wrong"))
      \* ---- the file
      /\ (binary => say(e.werr = 0, "writer-failed"))
      /\ (binary => say(e.short = 0 /\ e.rem = 0 /\ e.size = HdrBytes + (RecBytes * n), "size-is-not-84-plus-50-per-triangle"))
      /\ (binary => say(e.count = n, "header-count-differs-from-the-number-of-triangles"))
      /\ (binary => say(Len(e.recs) = n, "record-count-differs-from-the-number-of-triangles"))
+     \* (after the record count: nm has one entry per record of the file)
+     /\ (binary => say(e.dy = 0 \/ \A i \in 1..n : (Degenerate(e.tris[i]) <=> (e.nm[i][1] = 2)), "harness-degeneracy-flag-wrong"))
      /\ (binary => say(\A i \in 1..n : SubSeq(e.recs[i], 7, 24) = want[i], "vertex-tokens-are-not-the-float32-of-the-input-in-order"))
      /\ (binary => say(\A i \in 1..n : e.recs[i][25] = 0, "attribute-bytes-not-zero"))
      \* ---- the normal
@@ -39,7 +40,7 @@ Judge(e) ==
                                         NormalOK(e.tris[i], <<e.nm[i][4], e.nm[i][5], e.nm[i][6]>>),
                                       "normal-fails-the-exact-integer-test"))
      \* ---- streaming writer = batch writer (vertex tokens are equal to want on both sides)
-     /\ ((binary /\ e.kind # "save") => say(\A i \in 1..n : SubSeq(e.recs[i], 1, 6) = e.bn[i], "streamed-normal-differs-from-batch-writer"))
+     /\ ((binary /\ e.kind # "save") => say(Len(e.bn) = n /\ \A i \in 1..n : SubSeq(e.recs[i], 1, 6) = e.bn[i], "streamed-normal-differs-from-batch-writer"))
      /\ ((binary /\ e.kind # "save") => say(e.hdrzero = e.bhdrzero, "streamed-header-differs-from-batch-writer"))
      \* ---- loading back
      /\ say(e.lerr = 0, IF binary THEN "loadstl-fails-on-the-written-file" ELSE "loadstl-fails-on-well-formed-ascii")
